@@ -155,7 +155,9 @@ def run_both(cases, jobs=None):
     jobs = jobs or JOBS
     for i, c in enumerate(cases):
         c.cid = str(i)
-    n = max(1, min(jobs, (len(cases) + 199) // 200))
+    # small batches (shrink candidates) are spread over the cores too: a candidate that blocks costs a
+    # watchdog period, and those must not add up serially
+    n = max(1, min(jobs, (len(cases) + 3) // 4))
     chunks = [cases[i::n] for i in range(n)]
     texts = ["".join(c.text() for c in ch) for ch in chunks]
     impl, model = {}, {}
@@ -192,10 +194,14 @@ def compare_case(case, impl, model, project, start=0):
 
 
 # -------------------------------------------------------------------- shrinking
-def shrink(case, failing, candidates_of, max_rounds=40):
-    """Greedy batch shrinking: `failing(list of cases) -> list of bool`."""
+def shrink(case, failing, candidates_of, max_rounds=40, max_seconds=120):
+    """Greedy batch shrinking: `failing(list of cases) -> list of bool` (time-capped: the replay is then
+    simply less minimal)."""
     cur = case
+    t0 = time.time()
     for _ in range(max_rounds):
+        if time.time() - t0 > max_seconds:
+            break
         cands = candidates_of(cur)
         if not cands:
             break
